@@ -275,6 +275,28 @@ unlinking from link lists included) -/
 theorem delete_key_forms_agree {g : Graph} {c : Cont} {key : Key} {e : String × Nat}
     (hget : contGet g c key = .ok e) : contDel g c key = contDel g c (.ent e.2) := contDel_key_eq_ent hget
 
+/-- **deletion from every owning container** (plain containers, and sections / sources at any depth, whose deletion
+takes the subtree along; key = name, id, position, negative position or the entity object of any provenance): the call
+succeeds for every key that addresses an entry `e`, the container afterwards holds exactly the old entries whose node
+is not among the deleted objects `doomedKeys` (the node of `e` and, for sections / sources, its subtree) — in their
+old order — and `e` is gone. (That no SIBLING lies in the subtree of `e` is not proved: it needs a single-owner
+invariant the shared `WF` does not carry; for plain containers `order_after_delete` / `delete_by_entity` say it.) -/
+theorem delete_from_owning_container {g : Graph} (hg : ReachableFreshX g) {p : Path} {cn : String} {c : Cont}
+    (hc : openCont g p cn = some c) (hpl : isPlainLike c.info.flavour = true) {key : Key} {e : String × Nat}
+    (hkey : contGet g c key = .ok e ∨ (key = .ent e.2 ∧ e ∈ contEntries g c)) :
+    ∃ g', contDel g c key = .ok g' ∧
+      cLinks g' c.node = (contEntries g c).filter (fun l => !(doomedKeys g c e.2).contains l.2) ∧
+      e.2 ∈ doomedKeys g c e.2 ∧ e ∉ cLinks g' c.node ∧ (cLinks g' c.node).Sublist (contEntries g c) := by
+  have hmem : e ∈ contEntries g c := by
+    rcases hkey with h | ⟨_, h⟩
+    · exact contGet_mem hpl h
+    · exact h
+  obtain ⟨g', hd, h1, h2, h3⟩ := hg.wf.contDel_owning (hg.wf.entries_ok hc) hpl hmem
+  refine ⟨g', ?_, h1, mem_doomedKeys_self g c e.2, h2, h3⟩
+  rcases hkey with h | ⟨h, _⟩
+  · rw [delete_key_forms_agree h]; exact hd
+  · rw [h]; exact hd
+
 /-- **views agree, link lists** — for every link list (group.data_arrays / data_frames / tags / multi_tags / sources,
 tag / multi-tag references, array / tag / multi-tag sources) of every reachable graph and every position `j`:
 positional indexing, lookup and membership by the id (the link's name), membership by entity object address the `j`-th
